@@ -214,40 +214,29 @@ bool splinetable<Alloc>::read_fits_core(fitsfile* fits, const std::string& fileP
 				
 				keylen = strlen(key) + 1;
 				valuelen = strlen(value) + 1;
-				aux[i] = allocate<char_ptr>(2);
-				aux[i][0] = aux[i][1] = NULL;
-				aux[i][0] = allocate<char>(keylen);
-				aux[i][1] = allocate<char>(valuelen);
-				std::copy(key,key+keylen,aux[i][0]);
 				//remove stupid quotes mandated by FITS, but not removed by cfitsio on reading
 				//Note that we do not attempt to remove whitespace, because we cannot 
 				//distinguish whitespace included by the user and whitespace pointlessly
 				//added by FITS.
+				std::string stripped;
 				if(valuelen>1 && value[0]=='\''){
-					if(valuelen>2 && value[valuelen-2]=='\''){ //remove a trailing quote also
-						std::copy(value+1,value+valuelen-2,aux[i][1]);
-						aux[i][1][valuelen-3]='\0';
-					}
-					else{ //just remove an opening quote
-						std::copy(value+1,value+valuelen-1,aux[i][1]);
-						aux[i][1][valuelen-2]='\0';
-					}
+					if(valuelen>2 && value[valuelen-2]=='\'') //remove a trailing quote also
+						stripped.assign(value+1,value+valuelen-2);
+					else //just remove an opening quote
+						stripped.assign(value+1,value+valuelen-1);
+					//a single quote inside a FITS string is stored doubled
+					for(size_t q=stripped.find("''"); q!=std::string::npos; q=stripped.find("''",q+1))
+						stripped.erase(q,1);
 				}
-				else{
-					std::copy(value,value+valuelen,aux[i][1]);
-					aux[i][1][valuelen-1]='\0';
-				}
-				//a single quote inside a FITS string is stored doubled
-				if(value[0]=='\''){
-					char* out=&aux[i][1][0];
-					for(const char* in=out; ; in++){
-						if(in[0]=='\'' && in[1]=='\'')
-							in++;
-						*out++=*in;
-						if(!*in)
-							break;
-					}
-				}
+				else
+					stripped=value;
+				aux[i] = allocate<char_ptr>(2);
+				aux[i][0] = aux[i][1] = NULL;
+				aux[i][0] = allocate<char>(keylen);
+				std::copy(key,key+keylen,aux[i][0]);
+				//allocate exactly what is stored, since that is the size which will be released
+				aux[i][1] = allocate<char>(stripped.size()+1);
+				std::copy(stripped.c_str(),stripped.c_str()+stripped.size()+1,aux[i][1]);
 				i++;
 			}
 		} else {
